@@ -235,9 +235,8 @@ static void write_output(const char* out, const struct buf* payload) {
     const char* base = strrchr(data, '/');
     base = base ? base + 1 : data;
     struct stat st;
-    if (lstat(out, &st) == 0) {
-      if (S_ISDIR(st.st_mode)) rmtree(out); else unlink(out);
-    }
+    /* a directory in the way is left alone, as for a plain output: symlink fails below */
+    if (lstat(out, &st) == 0 && !S_ISDIR(st.st_mode)) unlink(out);
     if (symlink(base, out) != 0) die("cannot create output link", out);
   } else {
     write_file(out, payload->p ? payload->p : "", payload->n);
